@@ -179,7 +179,8 @@ def clock_forms(h, mi, groups=None):
         if 1 <= h <= 11:
             for ph in ("in the morning", "morgens", "vormittags", "am vormittag"):
                 out.append(("clock:h in the POD", "%d %s" % (h, ph), C))
-            for f in ("%d uhr morgens", "%d:00 in the morning", "at %d in the morning", "%d o'clock in the morning"):
+            # ("N uhr morgens" is not used: "morgen" inside it is also "tomorrow", a homograph of the lexicon)
+            for f in ("%d uhr vormittags", "%d:00 in the morning", "at %d in the morning", "%d o'clock in the morning"):
                 out.append(("clock:h uhr POD", f % h, C))
     hn = (h + 1) % 24
 
